@@ -34,6 +34,19 @@ def must_accept(prop, what, fn, *args, **kwargs):
                         key=f"refused:{what.split('(')[0]}") from e
 
 
+def make_top_with_reset(*components):
+    """Like make_top, with an explicit `sync` domain whose reset the harness can pulse."""
+    from amaranth import ClockDomain
+    m = Module()
+    cd = ClockDomain("sync")
+    m.domains.sync = cd
+    ctr = Signal(8, name="verif_ctr")
+    m.d.sync += ctr.eq(ctr + 1)
+    for i, c in enumerate(components):
+        m.submodules[f"dut{i}"] = c
+    return m, cd.rst
+
+
 def make_top(*components):
     """A top module that always has a `sync` domain (a free-running counter)."""
     m = Module()
@@ -109,6 +122,18 @@ class Pins:
 
     def set(self, sig, val):
         self.ctx.set(Value.cast(sig), val)
+
+    def drive_input(self, prop, what, sig, val):
+        """Drive a signal the component's signature declares as an input. If the component
+        drives it itself the simulator refuses: the port does not have the declared direction."""
+        from amaranth.hdl._ir import DriverConflict
+        from .core import Violation
+        try:
+            self.ctx.set(Value.cast(sig), val)
+        except DriverConflict:
+            raise Violation(prop, "declared-input-is-driven-by-the-component", 0,
+                            f"{what} is an input by its signature but the component drives it",
+                            key=f"input-driven:{what}")
 
 
 class MockReg(wiring.Component):
